@@ -592,6 +592,9 @@ func c15Judge(r *core.Run, phase string, pt map[string]any) *core.Violation {
 		base := c.run(c15Doc(docText).Raw)
 		for k := 0; k < 400; k++ {
 			o := c.run(c15Doc(docText).Raw)
+			if k%2 == 1 {
+				o = core.Search(expr, c15Doc(docText).Raw) // a fresh compilation, as in the phase itself
+			}
 			if base.Kind == "err" && o.Kind == "err" {
 				continue
 			}
